@@ -62,6 +62,26 @@ def cook_check_never_returns_uncooked(repo):
     return True, ""
 
 
+def flag_down_before_stamp(repo):
+    """The new modification time is remembered only after the compiled flag
+    was lowered: a thread that reads both between the two stores must not
+    find "unchanged and compiled" for a file that did change."""
+    f = repo.func(BF + "cook_check")
+    n = 0
+    for p in P.enum_paths(f.node.body):
+        down = False
+        for ev in p:
+            if ev[0] != "assign":
+                continue
+            if ev[1] == "self._cooked" and src(ev[2]) == "False":
+                down = True
+            elif ev[1] == "self._v_last_read":
+                n += 1
+                if not down:
+                    return False, n, "path: " + P.path_text(p, 10)
+    return n >= 1, n, "" if n else "no store to self._v_last_read found"
+
+
 def fresh_search_path(repo):
     """The list that gets the template's directory prepended must be the
     template's own (a copy), never the caller's / the loader's list."""
